@@ -224,6 +224,7 @@ def error_variants(F, R):
 
 
 def check(F, R, tier):
+    lib.flavour_siblings(R, F, r'^iceoryx2::service::builder::(publish_subscribe|request_response)::Builder::<.*>::(create|open|open_or_create)(_with_attributes)?$', 'SIBLINGS', 'the QoS settings a service is created with are prepared (zero values normalised, type details) the same way for every payload flavour', floor=24)
     formulas(F, R)
     formula_flow(F, R)
     limits(F, R)
